@@ -1,5 +1,91 @@
 import KrroodVerif.Sexp
+import KrroodVerif.Model.OrmGen
+/-!
+Driver for C06. Case line:
+
+`(m (fut T|F) (ord A B …) (ord2 B A …) (enums E …) (c Name Base|- (field kind arg?) …) …)`
+
+field kinds: `s T` scalar, `o T` Optional scalar, `e E` enum, `oe E` Optional enum, `d` datetime, `od` Optional datetime,
+`j T` list of builtins, `r C` reference, `or C` Optional reference, `l C` collection.  The class list handed to the
+model is the `c` entries re-ordered by `ord` (the order given to `ClassDiagram`).
+-/
 namespace KrroodVerif.Drive.C06
-/-- stub: replaced when the model for C06 is built -/
-def run (_ : Sexp) : String := "model=unimplemented\tspec=unimplemented\ttrig="
+open KrroodVerif.OrmGen
+
+def nm (s : String) : Name := s.toList
+def str (n : Name) : String := String.ofList n
+
+def parseScalar : String → Option Scalar
+  | "int" => some .int | "float" => some .float | "str" => some .str | "bool" => some .bool | _ => none
+
+def parseField : Sexp → Option Field
+  | .list [.atom f, .atom "s", .atom t] => (parseScalar t).map (fun s => ⟨nm f, .scalar s false⟩)
+  | .list [.atom f, .atom "o", .atom t] => (parseScalar t).map (fun s => ⟨nm f, .scalar s true⟩)
+  | .list [.atom f, .atom "e", .atom _] => some ⟨nm f, .enum false⟩
+  | .list [.atom f, .atom "oe", .atom _] => some ⟨nm f, .enum true⟩
+  | .list [.atom f, .atom "d"] => some ⟨nm f, .datetime false⟩
+  | .list [.atom f, .atom "od"] => some ⟨nm f, .datetime true⟩
+  | .list [.atom f, .atom "j", .atom t] => (parseScalar t).map (fun s => ⟨nm f, .jsonList s⟩)
+  | .list [.atom f, .atom "r", .atom t] => some ⟨nm f, .ref (nm t) false⟩
+  | .list [.atom f, .atom "or", .atom t] => some ⟨nm f, .ref (nm t) true⟩
+  | .list [.atom f, .atom "l", .atom t] => some ⟨nm f, .coll (nm t)⟩
+  | _ => none
+
+def parseClass : List Sexp → Option Class
+  | .atom n :: .atom b :: fs => do
+    let fields ← fs.mapM parseField
+    pure ⟨nm n, if b == "-" then none else some (nm b), fields⟩
+  | _ => none
+
+def parseModel (items : List Sexp) : Option ClassModel := do
+  let cs ← (Sexp.fields items "c").mapM parseClass
+  match Sexp.field? items "ord" with
+  | none => pure cs
+  | some ord =>
+    let names := ord.filterMap Sexp.asAtom?
+    let picked := names.filterMap (fun n => cs.find? (fun c => c.name == nm n))
+    if picked.length == cs.length then pure picked else none
+
+def showOpt : Option Name → String | none => "Base" | some b => str b
+
+def showCol (c : Name × Option Bool) : String :=
+  str c.1 ++ (match c.2 with | none => "" | some true => "?" | some false => "!")
+
+def showObs (o : Obs) : String :=
+  let ts := sortStrings (o.tables.map (fun t =>
+    s!"{str t.name}({str t.cls})<{showOpt t.base}:" ++ ",".intercalate (sortStrings (t.cols.map showCol))))
+  let as := sortStrings (o.assocs.map (fun a => s!"{str a.1}:{str a.2.1}+{str a.2.2}"))
+  let rs := sortStrings (o.rels.map (fun r =>
+    s!"{str r.1}.{str r.2.1}>{str r.2.2.1}:" ++ (if r.2.2.2.1 then "many" else "one") ++
+      (match r.2.2.2.2 with | some s => "@" ++ str s | none => "")))
+  let fs := sortStrings (o.fks.map (fun f => s!"{str f.1}.{str f.2.1}>{str f.2.2}"))
+  "ok|T[" ++ ";".intercalate ts ++ "]|A[" ++ ";".intercalate as ++ "]|R[" ++ ";".intercalate rs ++
+    "]|F[" ++ ";".intercalate fs ++ "]|P[" ++ (if o.polyOk then "ok" else "bad") ++ "]|D[ok]"
+
+/-- what the model predicts one observes of the generated module -/
+def showModel (q : Quirks) (m : ClassModel) : String :=
+  let s := generate q m
+  if decide (Valid s) then showObs (observe s)
+  else if s.crashed then "fail:gen"
+  else if s.assocs.any (fun a => a.leftFk == a.rightFk) then "fail:import:dupcol"
+  else if s.tables.any (fun t => t.pkMods.any (fun x => !s.imports.contains x)) then "fail:import:unresolved"
+  else "fail:other"
+
+/-- The quirk setting of the code as it is now. Switch a flag off in the /verif commit that records the repair of the
+corresponding defect (F-C06-1 = `sameAssocFkNames`, F-C06-2 = `builtinsOnlyWhenUsed`): `model=` and `trig=` follow. -/
+def current : Quirks := ⟨true, true⟩
+
+def run (s : Sexp) : String :=
+  match s with
+  | .list (.atom "m" :: items) =>
+    match parseModel items with
+    | none => "error=bad-case"
+    | some m =>
+      let trig := (if current.sameAssocFkNames && selfCollection m then ["F-C06-1"] else []) ++
+        (if current.builtinsOnlyWhenUsed && noBuiltinField m then ["F-C06-2"] else [])
+      s!"model={showModel current m}\tspec={showObs (Spec.expected m)}\ttrig={",".intercalate trig}" ++
+        s!"\tmodel_fix1={showModel ⟨false, current.builtinsOnlyWhenUsed⟩ m}" ++
+        s!"\tmodel_fix2={showModel ⟨current.sameAssocFkNames, false⟩ m}" ++
+        s!"\tmodel_fixed={showModel Quirks.none m}\twf={decide (WF m)}"
+  | _ => "error=bad-case"
 end KrroodVerif.Drive.C06
